@@ -379,6 +379,25 @@ def has_precheck(base_tree, cls_name, fn):
   if len(loops) != 1:
     raise TranslatorError('_ensure_rebind_targets_writable: expected one loop over its argument')
   loop = loops[0]
+  # the loop body is exactly: skip the root path (`if not path: continue`), resolve the parent
+  # (`try: parent = path.parent.query(self)  except KeyError: continue`), refuse a sealed parent.
+  # Any other way of skipping a pair (e.g. by the length of the path) is not what the model does.
+  lb = [x for x in loop.body if not (isinstance(x, ast.Expr) and isinstance(x.value, ast.Constant))]
+  tgt = loop.target.id if isinstance(loop.target, ast.Name) else None
+  def _only_continue(body):
+    return len(body) == 1 and isinstance(body[0], ast.Continue)
+  shape_ok = (
+      tgt is not None and len(lb) == 3
+      and isinstance(lb[0], ast.If) and not lb[0].orelse and _only_continue(lb[0].body)
+      and isinstance(lb[0].test, ast.UnaryOp) and isinstance(lb[0].test.op, ast.Not) and _is_name(lb[0].test.operand, tgt)
+      and isinstance(lb[1], ast.Try) and len(lb[1].handlers) == 1 and _only_continue(lb[1].handlers[0].body)
+      and _is_name(lb[1].handlers[0].type, 'KeyError') and not lb[1].orelse and not lb[1].finalbody
+      and len(lb[1].body) == 1 and isinstance(lb[1].body[0], ast.Assign)
+      and isinstance(lb[2], ast.If))
+  if not shape_ok:
+    raise TranslatorError('_ensure_rebind_targets_writable: the loop no longer has the shape '
+                          '`if not path: continue / try: parent = path.parent.query(self) except KeyError: continue / '
+                          'if <sealed parent>: raise` (which pairs are skipped by the up-front check?)')
   subject = None
   for n in ast.walk(loop):
     if (isinstance(n, ast.Assign) and len(n.targets) == 1 and isinstance(n.targets[0], ast.Name)
